@@ -36,6 +36,7 @@ type Ctx struct {
 	SimTime time.Duration
 	nontriv bool
 	V       *Violation
+	Softs   []*Violation // known-defect style findings that do not end the run
 	Bug     string
 	Opaque  any // engine-specific
 }
@@ -112,6 +113,38 @@ func (c *Ctx) Record(clause, kind, where, format string, a ...any) {
 	if c.V == nil {
 		c.V = &Violation{Clause: clause, Kind: kind, Where: where, Detail: fmt.Sprintf(format, a...)}
 	}
+}
+
+// Soft records a violation without ending the run and without masking a
+// later, different one: used where a defect is already on record and the rest
+// of the run should still be checked (with the expectation adjusted).
+func (c *Ctx) Soft(clause, kind, where, format string, a ...any) {
+	v := &Violation{Clause: clause, Kind: kind, Where: where, Detail: fmt.Sprintf(format, a...)}
+	for _, o := range c.Softs {
+		if o.Sig() == v.Sig() {
+			return
+		}
+	}
+	c.Softs = append(c.Softs, v)
+}
+
+// All returns every violation of the run, hard one first.
+func (c *Ctx) All() []*Violation {
+	var l []*Violation
+	if c.V != nil {
+		l = append(l, c.V)
+	}
+	return append(l, c.Softs...)
+}
+
+// Has reports whether the run produced a violation with this signature.
+func (c *Ctx) Has(sig string) *Violation {
+	for _, v := range c.All() {
+		if v.Sig() == sig {
+			return v
+		}
+	}
+	return nil
 }
 
 // Bugf reports trouble in the harness itself (exit 2, never a violation).
